@@ -15,8 +15,8 @@ import (
 	"verifharness/internal/val"
 )
 
-var c16Floor = []string{"tpl.echo", "tpl.where", "tpl.in", "tpl.between", "tpl.func", "tpl.limit", "tpl.adjacent", "tpl.repeat", "tpl.protected.single", "tpl.protected.double", "tpl.protected.backtick", "tpl.protected.backtick-backslash", "tpl.protected.comment", "tpl.pg-ident", "tpl.idiomatic-array", "comment.tab", "comment.backslash-eol", "arg.float.huge", "err.missing.huge", "comment.hash", "tpl.badutf8", "tpl.protected.backslash", "err.nan",
-	"arg.string", "arg.int", "arg.negint", "arg.float", "arg.bool", "arg.nil", "str.quote", "str.backslash", "str.comment", "str.control", "str.keyword", "str.multibyte", "err.missing", "err.unused", "err.dollar0", "prepared", "concurrent"}
+var c16Floor = []string{"tpl.echo", "tpl.where", "tpl.in", "tpl.between", "tpl.func", "tpl.limit", "tpl.adjacent", "tpl.repeat", "tpl.protected.single", "tpl.protected.double", "tpl.protected.backtick", "tpl.protected.backtick-backslash", "tpl.protected.comment", "tpl.pg-ident", "tpl.idiomatic-array", "comment.tab", "comment.backslash-eol", "arg.float.huge", "err.missing.huge", "comment.hash", "comment.block-not-nested", "comment.minus-minus", "tpl.badutf8", "tpl.protected.backslash", "err.nan",
+	"arg.string", "arg.int", "arg.int.native", "arg.float.native", "arg.negint", "arg.float", "arg.bool", "arg.nil", "str.quote", "str.backslash", "str.comment", "str.control", "str.keyword", "str.multibyte", "err.missing", "err.unused", "err.dollar0", "prepared", "concurrent"}
 
 func init() {
 	fw.Register(&fw.Prop{
@@ -30,7 +30,7 @@ func init() {
 			"Non-trivial = a string argument containing at least one of ' \" ` \\ - / * # ; NUL, or an error case; distinct = distinct (template, arguments).",
 		Assumptions: []string{
 			"string arguments are valid UTF-8; floats are finite; integers within +-2^53 for the exact echo (the engine evaluates numbers as doubles)",
-			"#-comments are not asserted (the sanitizer's lexer does not claim them)",
+			"comments are what the parser reads as comments: /* */ (not nested), -- before white space, # and //",
 		},
 		Floor:         c16Floor,
 		MinNontrivial: 200,
@@ -88,6 +88,12 @@ func c16Arg(c *fw.Case, kind string, feats *[]string) any {
 		if c.Chance(0.05) {
 			return gen.Pick(c.R, []int64{math.MaxInt64, math.MaxInt64 - 1, 1 << 53, 1<<53 + 1})
 		}
+		if c.Chance(0.25) {
+			// an integer is an integer whatever Go type the caller holds it in
+			n := c.Intn(1000000)
+			*feats = append(*feats, "arg.int.native")
+			return gen.Pick(c.R, []any{int(n), int32(n), int16(n % 30000), int8(n % 120), uint(n), uint64(n), uint32(n), uint16(n % 60000), uint8(n % 250), -int(n), int32(-n)})
+		}
 		return int64(c.Intn(1000000))
 	case "negint":
 		if c.Chance(0.05) {
@@ -100,6 +106,10 @@ func c16Arg(c *fw.Case, kind string, feats *[]string) any {
 		f := float64(c.Intn(2000001)-1000000) / 64
 		if c.Chance(0.2) {
 			f = math.Ldexp(float64(1+c.Intn(1000)), c.Intn(60)-30)
+		}
+		if c.Chance(0.1) {
+			*feats = append(*feats, "arg.float.native")
+			return float32(c.Intn(2001)-1000) / 8
 		}
 		if c.Chance(0.08) {
 			// whole doubles beyond the int64 range and at its edges
@@ -117,9 +127,9 @@ func sentinelFor(a any) string {
 	switch a.(type) {
 	case string:
 		return "'S'"
-	case int64:
+	case int64, int, int32, int16, int8, uint, uint64, uint32, uint16, uint8:
 		return "7"
-	case float64:
+	case float64, float32:
 		return "7.5"
 	case bool:
 		return "true"
@@ -259,6 +269,10 @@ func c16Run(c *fw.Case) {
 		kind, variant = "tpl.protected.single", 0
 	case "tpl.protected.backtick-backslash":
 		kind, variant = "tpl.protected.backtick", 7
+	case "comment.block-not-nested":
+		kind, variant = "tpl.protected.comment", 7
+	case "comment.minus-minus":
+		kind, variant = "tpl.protected.comment", 8
 	}
 	if force == "concurrent" {
 		force = ""
@@ -347,7 +361,7 @@ func c16Run(c *fw.Case) {
 		}
 	case "tpl.protected.comment":
 		t.pieces, t.slots = []string{"SELECT /* $2 ' */ ", " AS v FROM dual -- $3 '"}, []int{A("")}
-		v := c.Intn(7)
+		v := c.Intn(9)
 		if variant >= 0 {
 			v = variant
 		}
@@ -369,6 +383,19 @@ func c16Run(c *fw.Case) {
 			// a byte that is not valid UTF-8 in the static text: nothing after it is lost
 			t.pieces = []string{"SELECT /* caf\xe9 $2 */ ", " AS v FROM dual WHERE 'na\xefve' = 'na\xefve' -- \xff $3"}
 			feats = append(feats, "tpl.badutf8")
+		case 7:
+			// a block comment ends at the first */ (the parser does not nest them):
+			// the placeholder after it is a placeholder
+			t.pieces, t.slots = []string{"SELECT /* files: data/*.json $9 */ ", " AS v, /* /* */ ", " AS w FROM dual"}, []int{0, A("")}
+			feats = append(feats, "comment.block-not-nested")
+		case 8:
+			// two minus signs that are not a comment (no white space behind them)
+			t.pieces, t.slots = []string{"SELECT ", " AS v, (0--", ") AS w FROM dual"}, []int{0, A("posint")}
+			if n, ok := t.args[1].(int64); ok && n < 0 {
+				t.args[1] = -n
+			}
+			t.note = "minus-minus"
+			feats = append(feats, "comment.minus-minus")
 		case 3:
 			// a backslash at the end of a line comment hides nothing: the
 			// placeholder on the next line is a placeholder
@@ -481,9 +508,9 @@ func c16Run(c *fw.Case) {
 	// (2)/(3)/(4) end to end
 	doc := DocOf(tbl)
 	exact := func(a any) any {
-		switch x := a.(type) {
-		case int64:
-			return float64(x)
+		if val.IsNumber(a) {
+			f, _ := val.Rat(a).Float64()
+			return f
 		}
 		return a
 	}
@@ -507,6 +534,10 @@ func c16Run(c *fw.Case) {
 			expect["v"] = exact(t.args[0])
 			if len(t.args) == 2 {
 				expect["w"] = exact(t.args[1])
+			}
+			if t.note == "minus-minus" {
+				// 0 - (-n)
+				expect["w"] = float64(t.args[1].(int64))
 			}
 		case "tpl.repeat":
 			expect["a"], expect["b"], expect["c"] = exact(t.args[0]), exact(t.args[1]), exact(t.args[0])
@@ -590,10 +621,8 @@ func c16Run(c *fw.Case) {
 			return
 		}
 		f := func(a any) float64 {
-			switch x := a.(type) {
-			case int64:
-				return float64(x)
-			case float64:
+			if val.IsNumber(a) {
+				x, _ := val.Rat(a).Float64()
 				return x
 			}
 			return 0
